@@ -208,7 +208,7 @@ Definition core_after (v : view) (m : N) : bytes * option N * N * N * bool * boo
 
 Lemma peeked_core v v' m : peeked_to v v' m -> core v' = core_after v m.
 Proof.
-  intros (a1 & a2 & a3 & a4 & a5 & _ & a7). unfold core, core_after. rewrite a1, a2, a3, a4, a5, a7. reflexivity.
+  intros (a1 & a2 & a3 & a4 & a5 & _ & a7 & _). unfold core, core_after. rewrite a1, a2, a3, a4, a5, a7. reflexivity.
 Qed.
 
 Lemma core_after_within v m : m <= nlen (vS v) -> core v = core_after v m.
